@@ -51,9 +51,10 @@ SummaryOKW(items, sm) ==
   /\ (p # <<>> =>
         /\ sm.sum = SeqSum(Map(LAMBDA it : len(it) * Val(it), items))
         /\ sm.sumsq = SeqSum(Map(LAMBDA it : len(it) * Val(it) * Val(it), items))
-        \* a zero-length value may or may not take part in min / max (the statement is silent)
-        /\ sm.min \in {SetMin({Val(it) : it \in Range(p)}), SetMin({Val(it) : it \in Range(items)})}
-        /\ sm.max \in {SetMax({Val(it) : it \in Range(p)}), SetMax({Val(it) : it \in Range(items)})})
+        \* zero-length values may or may not take part in min / max (the statement is silent): any subset
+        /\ sm.min \in {Val(it) : it \in Range(items)} /\ sm.max \in {Val(it) : it \in Range(items)}
+        /\ SetMin({Val(it) : it \in Range(items)}) <= sm.min /\ sm.min <= SetMin({Val(it) : it \in Range(p)})
+        /\ SetMax({Val(it) : it \in Range(p)}) <= sm.max /\ sm.max <= SetMax({Val(it) : it \in Range(items)}))
 
 (* ------------------------------ C07 ------------------------------------ *)
 ZoomLevelOKW(items, sizes, lvl) ==   \* lvl = [res, recs]
